@@ -252,6 +252,16 @@ class CaseTimeout(BaseException):
 
 
 def timed(fn, *args, default=None, limit=CASE_LIMIT, **kw):
+    """timed_once, asked a second time with four times the limit before giving up: a busy machine can stall
+    one call, a real endless loop fails both"""
+    marker = object()
+    r = timed_once(fn, *args, default=marker, limit=limit, **kw)
+    if r is marker:
+        r = timed_once(fn, *args, default=default, limit=4 * limit, **kw)
+    return r
+
+
+def timed_once(fn, *args, default=None, limit=CASE_LIMIT, **kw):
     """fn(*args) or `default` if it has not returned after `limit` seconds (worker processes only: uses
     SIGALRM).  A change to the implementation can make one call loop for ever -- e.g. a walk over the
     cyclic AST of a self-containing list; the program is then reported, not waited for."""
